@@ -171,7 +171,20 @@ class Interp:
         self.steps += 1
         if self.steps > self.MAX_STEPS:
             raise Unsupported(st, "(step budget exhausted)")
-        if isinstance(st, ast.If):
+        if isinstance(st, ast.FunctionDef) and not st.decorator_list:
+            # a nested function: a closure over the enclosing function's variables (read at call time)
+            outer = self
+
+            def closure(*a: Any, __fn: ast.FunctionDef = st, **k: Any) -> Any:
+                saved = outer.globals
+                outer.globals = {**saved, **outer.env}
+                try:
+                    return outer.call_def(__fn, list(a), __fn, k)
+                finally:
+                    outer.globals = saved
+
+            self.env[st.name] = closure
+        elif isinstance(st, ast.If):
             self.block(st.body if self.truth(self.ev(st.test)) else st.orelse)
         elif isinstance(st, ast.Assign):
             v = self.ev(st.value)
